@@ -454,6 +454,8 @@ def registrations(ev, recognizer_qual):
     fn = c.methods.get('initialize_configuration')
     if fn is None:
         raise AnalysisError('anchor vanished: %s.initialize_configuration' % c.name)
+    from ..inline import normalise_registrations
+    fn = normalise_registrations(idx, c.mod, c, fn)     # a table of rows + loop + helper method reads like the flat list
     out = []
     for n in ast.walk(fn):
         if not (isinstance(n, ast.Call) and is_self_attr(n.func, 'register_model')):
